@@ -19,6 +19,7 @@ TOKENS = [
     (r'\bstopSource_\.get_token\(\)', 'TOK_SOURCE'),
     (r'\bget_stop_token\(r\)', 'TOK_PARENT'),
     (r'\binplace_stop_token\{\}', 'TOK_NEVER'),
+    (r'\bstop_token_type\{\}', 'TOK_NEVER'),
     (r'std::is_same_v<\s*stop_token_type_t<Receiver2?>,\s*inplace_stop_token>', 'VF_CFG_inplace'),
     (r'is_stop_never_possible_v<stop_token_type_t<Receiver>>', 'VF_CFG_never'),
     (r'\bget_token\(r\)', 'tki_op_get_token(&TKI)'),
@@ -59,20 +60,20 @@ SPEC = dict(
         'ss_set_error': dict(file=SS, sig=r'void set_error\(Error&& error\) noexcept', within=SS_RCV, ctx=ss_rcv_ctx),
         'ss_set_done': dict(file=SS, sig=r'void set_done\(\) noexcept', within=SS_RCV, ctx=ss_rcv_ctx),
         'ss_child_token': dict(file=SS, sig=r'tag_invoke\(tag_t<get_stop_token>, const type& r\) noexcept', within=SS_RCV, ctx=ss_rcv_ctx),
-        'ss_parent_token': dict(file=SS, kind='expr', sig=r', receiverToken_\((get_stop_token\(r\))\)', within=SS_OP, ctx=expr_ctx),
+        'ss_parent_token': dict(file=SS, kind='expr', sig=r', receiverToken_\(((?:[^()]|\([^()]*\))*)\)', within=SS_OP, ctx=expr_ctx),
         # the interposed source is declared (hence constructed) before the inner operation that captures its token
         'ss_decl_order': dict(file=SS, kind='expr', sig=r'(?s)UNIFEX_NO_UNIQUE_ADDRESS (stop_source_type stopSource_;.*?innerOp_;)', within=SS_OP, ctx=expr_ctx),
         # let_value_with_stop_token.hpp, generic operation (foreign token type: interposes a fused_stop_source)
         'tk_start': dict(file=TK, sig=r'void start\(\) noexcept', within=TK_OP, ctx=tk_op_ctx),
         'tk_cleanup': dict(file=TK, sig=r'void cleanup\(\) noexcept', within=TK_OP, ctx=tk_op_ctx),
-        'tk_parent_token': dict(file=TK, kind='expr', sig=r', receiverToken_\((get_stop_token\(r\))\)', within=TK_OP, ctx=expr_ctx),
-        'tk_child_token': dict(file=TK, kind='expr', sig=r'innerOp_\(connect_inner_op\(\s*func_, (stopSource_\.get_token\(\)), static_cast', within=TK_OP, ctx=expr_ctx),
+        'tk_parent_token': dict(file=TK, kind='expr', sig=r', receiverToken_\(((?:[^()]|\([^()]*\))*)\)', within=TK_OP, ctx=expr_ctx),
+        'tk_child_token': dict(file=TK, kind='expr', sig=r'innerOp_\(connect_inner_op\(\s*func_, ([^,]+), static_cast', within=TK_OP, ctx=expr_ctx),
         'tk_decl_order': dict(file=TK, kind='expr', sig=r'(?s)(fused_stop_source<stop_token_type> stopSource_;.*?innerOp_;)', within=TK_OP, ctx=expr_ctx),
         # let_value_with_stop_token.hpp, specialisation for inplace_stop_token / never-stoppable receivers: no interposed source
         'tki_start': dict(file=TK, sig=r'void start\(\) noexcept', within=TKI_OP, ctx=tki_op_ctx),
         'tki_cleanup': dict(file=TK, sig=r'void cleanup\(\) noexcept', within=TKI_OP, ctx=tki_op_ctx),
         'tki_get_token': dict(file=TK, sig=r'inplace_stop_token get_token\(Receiver2& r\) noexcept', within=TKI_OP, ctx=tki_op_ctx),
-        'tki_child_token': dict(file=TK, kind='expr', sig=r'innerOp_\(connect_inner_op\(\s*func_, (get_token\(r\)), static_cast', within=TKI_OP, ctx=expr_ctx),
+        'tki_child_token': dict(file=TK, kind='expr', sig=r'innerOp_\(connect_inner_op\(\s*func_, ([^,]+), static_cast', within=TKI_OP, ctx=expr_ctx),
         'tki_selected_when': dict(file=TK, kind='expr', sig=r'(?s)std::enable_if_t<\s*(std::is_same_v<stop_token_type_t<Receiver>, inplace_stop_token> \|\|\s*is_stop_never_possible_v<stop_token_type_t<Receiver>>)>>', ctx=expr_ctx),
         # the inner receiver of let_value_with_stop_token (shared by both operations)
         'tkr_set_value': dict(file=TK, sig=r'void set_value\(Values&&\.\.\. values\) noexcept\(\s*is_nothrow_receiver_of_v<Receiver, Values\.\.\.>\)', within=TK_RCV, ctx=tk_rcv_ctx),
@@ -129,6 +130,7 @@ SPEC = dict(
         'the stop callback is invoked at most once per registration, and callbacks_.reset() returns only after a concurrent invocation on another thread has returned (C03, group stop_token); an invocation on the completing thread itself is the only one that can overlap the completion',
         'inplace_stop_source::request_stop() of the interposed source is an event stub (group stop_token): the inner operation\'s callbacks run inside it and may complete the inner operation synchronously',
         'the receiver may destroy the operation (with the interposed source) as soon as it has been completed',
+        'FINDING (not repaired): the forwarding callback calls stopSource_.request_stop() on the interposed source without pinning the operation; a child that completes with done from inside that call lets the receiver destroy the source while its request_stop() is still running (heap-use-after-free, probes/native/let_value_with_stop_source_request_stop_uaf.cpp). The obligation is unit fused_callback_source_outlives_request_stop, tier=thorough only',
         'tokens are identified by the source they belong to (TOK_PARENT / TOK_SOURCE / TOK_NEVER); the successor factory / inner sender connect is template code and is not reached; an exception from connect_inner_op in the constructor happens before anything is registered',
     ],
     drops=['template genericity (SuccessorFactory, Receiver, StopTokens...: one parent token)', 'payload arguments of the completion signals',
